@@ -162,7 +162,12 @@ def check_case(case, rec_):
             # 'any' vs a fixed channel differ only when that channel is quiet: fine, long must win
             other_uc = 0
         spell(kw, "uc", uc, sp.get("uc", "long"), other_uc)
-    if cont != "reader":
+    if cont == "reader":
+        if sp.get("aw") == "both":
+            kw["analysis_window"] = aw * 3  # a reader's own block duration governs: must be ignored
+        elif sp.get("aw") == "short":
+            kw["aw"] = aw * 3
+    else:
         spell(kw, "aw", aw, sp.get("aw", "long"), aw * 3)
         if mr is not None:
             spell(kw, "mr", mr, sp.get("mr", "long"), mr / 2 + 1 / sr)
